@@ -39,7 +39,7 @@ prop("C03", "exploration",
      _b(2000, 60, 100000, 1200))
 
 NOT_APPLICABLE = {}
-HOOK_COMMITS = ["a570d77", "892fb38", "f85b010", "cff13f8", "e658946", "e9ed0c9", "f7e5a52", "6908e64", "88681b5", "9b31507", "7eee51e", "3c461ca", "0cb7bec", "d8a91f5", "1f3ab00"]
+HOOK_COMMITS = ["a570d77", "892fb38", "f85b010", "cff13f8", "e658946", "e9ed0c9", "f7e5a52", "6908e64", "88681b5", "9b31507", "7eee51e", "3c461ca", "0cb7bec", "d8a91f5", "1f3ab00", "aed0aa0"]
 
 prop("C04", "exploration",
      "lifecycle world: 1-2 real requestors and a real responder, 1-3 requests, per request a scripted environment (request hook accept/terminate/pause/reject, block hook pause/error at block k, requestor response-hook error, requestor block-hook pause/error) and up to two caller/operator actions (context cancel, Cancel API, pause/unpause on either side, updates) enabled from a drawn step; fault family adds send failures, lost acks, connect failures, disconnects, store read errors and small retry counts; after heal every paused exchange is unpaused, then every open request is cancelled by its caller and drained; distinct = distinct trace hash",
